@@ -33,8 +33,9 @@ def run(tier):
         pre_und.append('runner: %s' % e)
     units = [dict(vspec=os.path.join(common.VERIF, 'contracts', 'c20_position.vspec'))]
     assumptions = [
-        'line_starts comes from dora_parser::compute_line_starts and satisfies wf (starts with 0, strictly increasing, every entry a char boundary <= len): '
-        'compute_line_starts uses Peekable<Chars> which Verus rejects, so wf is ASSUMED; the replay runner checks it on every generated text',
+        'dora_parser::compute_line_starts is under contract too (ensures wf: starts with 0, strictly increasing, every entry a char boundary), after rewrite N4 of its '
+        'Peekable<Chars> cursor into an index over the char sequence (chars.next() / chars.peek() == Some(&c) / chars.next().unwrap() -> indexed reads; 4 rewrites, listed in evidence); '
+        'callers of the position functions are assumed to pass the table computed for the SAME text; the replay runner re-checks wf on every generated text',
         'documents are shorter than 4 GiB (offsets are u32)',
         'usize is 64 bits (dora targets x86-64 / AArch64)',
         'assumed std contracts (trusted_base): str range indexing (`&s[a..b]` = the chars between two boundaries; panics otherwise), '
@@ -44,12 +45,13 @@ def run(tier):
     samples = [
         dict(function='utf8_offset_to_utf16_position', contract='wf && boundary(offset) ==> result == (line_of(offset), utf16 length of the line prefix); no slice/index/overflow panic'),
         dict(function='utf16_position_to_utf8_offset', contract='wf ==> result == to_offset_spec(line, column) for EVERY (line, column); loop invariant over the scanned prefix'),
+        dict(function='compute_line_starts', contract='text shorter than 4 GiB ==> wf(text, result) (all line-ending styles; loop invariant pos == byte length of the consumed prefix)'),
         dict(lemma='theorem_roundtrip', statement='wf && boundary(off) ==> to_offset(to_position(off)) == off   (all texts, all line-ending styles, astral characters)'),
         dict(lemma='theorem_clamp', statement='every (line, column) maps to a char boundary inside the document; line past the end -> document end; result inside its line'),
         dict(lemma='theorem_clamp_column', statement='column past the end of a line -> end of that line (incl. terminator)'),
     ]
     not_decided = ['document/workspace symbol ranges (need the parser and the syntax tree)', 'server.rs entry points never panic',
-                   'range_to_span (unused; `end - start` underflows for reversed ranges)', 'compute_line_starts itself (assumed wf)']
+                   'range_to_span (unused; `end - start` underflows for reversed ranges)']
     return vprop.run_verus_property(PROP, tier, units, runner=runner, assumptions=assumptions, samples=samples,
                                     not_decided=not_decided, pre_undecided=pre_und)
 
